@@ -16,6 +16,7 @@ func init() {
 	comps["pool-stress"] = stressPool
 	comps["atomicvalue-count"] = countAtomicValue
 	comps["pool-holders"] = holdersPool
+	comps["pool-script"] = scriptPool
 }
 
 type avS struct{ A, B int } // a comparable struct type, to exercise CompareAndSwap on non-scalar values
@@ -220,8 +221,12 @@ func countAtomicValue(plan []M, out *Out, _ []string) {
 			v := new(sync2.AtomicValue[int])
 			rets := make([][]int, nt)
 			succ := make([]int, nt)
-			if kind == "casinc" {
-				v.Store(1)
+			startVal := 1
+			if kind == "casinc-refresh" { // boxed values (beyond the runtime's allocation-free small integers)
+				startVal = 1000
+			}
+			if kind == "casinc" || kind == "casinc-refresh" {
+				v.Store(startVal)
 			}
 			if kind == "eqstore" {
 				v.Store(5000)
@@ -246,6 +251,14 @@ func countAtomicValue(plan []M, out *Out, _ []string) {
 							for i := 0; i < nops; i++ {
 								v.Store(5000)
 							}
+						}
+						return
+					}
+					if kind == "casinc-refresh" && t >= nt-2 {
+						// refreshers: replace the value by an equal one (a new box, no change of value), which must not disturb anybody
+						for i := 0; i < nops; i++ {
+							x := v.Load()
+							v.CompareAndSwap(x, x)
 						}
 						return
 					}
@@ -278,7 +291,7 @@ func countAtomicValue(plan []M, out *Out, _ []string) {
 				for _, c := range succ {
 					total += c
 				}
-				out.Emit(M{"ev": "casinc", "start": 1, "succ": total, "final": v.Load()})
+				out.Emit(M{"ev": "casinc", "start": startVal, "succ": total, "final": v.Load()})
 			}
 		}
 	}
@@ -345,6 +358,46 @@ func holdersPool(plan []M, out *Out, _ []string) {
 			}
 			out.Emit(M{"ev": "reset", "hasnew": hasNew})
 			out.Emit(M{"ev": "holders", "max": m, "gets": g, "hasnew": hasNew})
+		}
+	}
+}
+
+// One goroutine, a script: the New field is assigned between calls (nil, a function handing out 1000.., another one
+// handing out 2000..), values are put back and fetched again.  Steps: "nil" | "A" | "B" | "get" | "put" (the oldest value held).
+func scriptPool(plan []M, out *Out, _ []string) {
+	for _, p := range plan {
+		pool := &sync2.Pool[int]{}
+		nextA, nextB := 999, 1999
+		hasNew := false
+		held := []int{}
+		out.Emit(M{"ev": "reset", "hasnew": false})
+		steps, _ := p["steps"].([]any)
+		for _, st := range steps {
+			switch st.(string) {
+			case "nil":
+				pool.New, hasNew = nil, false
+			case "A":
+				pool.New, hasNew = func() int { nextA++; return nextA }, true
+			case "B":
+				pool.New, hasNew = func() int { nextB++; return nextB }, true
+			case "get":
+				x := 0
+				if pn := protect(func() { x = pool.Get() }); pn != "" {
+					out.Emit(M{"ev": "get", "t": 1, "x": -1, "hasnew": hasNew, "panic": pn})
+					continue
+				}
+				if x != 0 {
+					held = append(held, x)
+				}
+				out.Emit(M{"ev": "get", "t": 1, "x": x, "hasnew": hasNew})
+			case "put":
+				if len(held) > 0 {
+					x := held[0]
+					held = held[1:]
+					out.Emit(M{"ev": "put", "t": 1, "x": x})
+					pool.Put(x)
+				}
+			}
 		}
 	}
 }
